@@ -6,7 +6,7 @@ import OpusModel.SilkApi
         => <ret> <nSamplesOut> <prevPitchLag> st=<state> ev=<inner calls> out=<hash> hi=<nSamplesOut*nChannelsAPI>
            (ABORT when a celt_assert of the modelled code fails; BOUNDS <acc> when a recorded access leaves its array)
     silkapi init <state>  => 0 <state>
-    silkapi mstolr <stereo state (6)> <p0,p1,fs_kHz,N> <x1 samples> <x2 samples>  => <stereo state> <x1 hex> <x2 hex>
+    silkapi mstolr <stereo state (6)> <p0,p1,fs_kHz,N> <x1 samples> <x2 samples>  => ms <stereo state> <x1 hex> <x2 hex>
     <state> = <chan0>;<chan1>;<stereo>;<nChannelsAPI,nChannelsInternal,prev_decode_only_middle>, <chan> = 25 integers
     in the order of `pr_chan` (harness/c01_silkapi.c); samples are `x` + 4 hex digits per int16. -/
 namespace Driver.SuiteSilkApi
@@ -105,7 +105,7 @@ def handle (args : List String) : String :=
     match parseStereo st, parseIntList pa, parseHex16 x1, parseHex16 x2 with
     | some st, some [p0, p1, fs, n], some x1, some x2 =>
       let r := msToLR st x1 x2 p0 p1 fs n
-      stereoStr r.st ++ " " ++ hex16Str r.x1 ++ " " ++ hex16Str r.x2
+      "ms " ++ stereoStr r.st ++ " " ++ hex16Str r.x1 ++ " " ++ hex16Str r.x2
     | _, _, _, _ => "bad-op"
   | _ => "bad-op"
 
